@@ -129,12 +129,13 @@ namespace ratio
             if (method &m = s->get_method(function_name.id, par_types); m.get_return_type().has_value())
             {
                 const auto rt = m.get_return_type().value();
+                expr res = m.invoke(ctx, exprs).value();
                 if (rt == &scp.get_core().get_type(BOOL_KEYWORD))
-                    return bool_expr(static_cast<bool_item *>(m.invoke(ctx, exprs).value()));
+                    return bool_expr(static_cast<bool_item *>(&*res));
                 else if (rt == &scp.get_core().get_type(INT_KEYWORD) || rt == &scp.get_core().get_type(REAL_KEYWORD) || rt == &scp.get_core().get_type(TP_KEYWORD))
-                    return arith_expr(static_cast<arith_item *>(m.invoke(ctx, exprs).value()));
+                    return arith_expr(static_cast<arith_item *>(&*res));
                 else
-                    return expr(m.invoke(ctx, exprs).value());
+                    return res;
             }
             else
                 return scp.get_core().new_bool(true);
